@@ -297,7 +297,7 @@ def run(R):
     n = R.n(400, 20000)
     checks = [('eig', eig_oracle(R, C, n)), ('sort', sort_wrapper_oracle(R, C, R.n(100, 2000))), ('lune', lune_oracle(R, C, n)),
               ('hudson', hudson_oracle(R, C, n)), ('potency', potency_oracle(R, C, R.n(150, 3000))),
-              ('cdc', cdc_oracle(R, C, n))]
+              ('cdc', cdc_oracle(R, C, n)), ('batches', conv.batch_oracle(R, C, ['E_tk', 'E_GD', 'MT6_TNPE'], R.n(4, 60)))]
     for name, bad in checks:
         if bad:
             R.violation('source-type / eigen-decomposition property fails (%s)' % bad['check'], bad)
@@ -312,6 +312,8 @@ def replay(R, body):
     C = conv.impl()
     rp = body['replay']
     ck = rp.get('check', '')
+    if ck.startswith('batch-of-'):
+        return conv.batch_replay(C, rp)
     if ck.startswith('lune-scale') or ck.startswith('lune-permutation'):
         e = rp.get('permuted') or [rp['scale'] * x for x in rp['E']]
         print('E_GD(%r) = %r, expected %r' % (e, gd(C, e), rp['expected']))
